@@ -748,7 +748,7 @@ def gen_neox_plan(rng: random.Random, tier: str, *, restarts: float,
             'prediv': False,
             'symmetry_aware': rng.random() < 0.4,
             'ckpt_dir': ckpt_dir,
-            'factor_dtype': rng.choice([None] * 5 + ['float64']),
+            'factor_dtype': rng.choice([None] * 8 + ['float64', 'bfloat16']),
             'inv_dtype': rng.choice([None] * 5 + ['float64']),
         },
         'read_factors': rng.random() < 0.5,
